@@ -179,6 +179,20 @@ def c12(res, rng, tier):
                 nontriv += 1
                 if p <= 2:
                     p2.append(data); p2meta.append(i)
+    # an Encoder that has already written other pickles emits the same framed pickle as a fresh one
+    # (PROTO header included): every third case is repeated on a used Encoder
+    ridx = [i for i in range(0, len(lines), 3) if 0 <= meta[i][1] <= 5 and i not in bad_idx]
+    rlines = [re.sub(r"^(enc \S+ \S+) - ", r"\1 r ", lines[i]) for i in ridx]
+    rimpl = C.implrun(rlines)
+    for i, ro in zip(ridx, rimpl):
+        c0, h0, _ = enc_obs(impl[i]); c1, h1, _ = enc_obs(ro)
+        if c0 == "ok" and (c1 != "ok" or (h1 != h0 and pkl.canon(bytes.fromhex(h1)) != pkl.canon(bytes.fromhex(h0)))):
+            why = pkl.check_conformance(bytes.fromhex(h1), meta[i][1]) if c1 == "ok" else "Encode fails: " + c1
+            res.violation("a used Encoder writes a different pickle than a fresh one at protocol %d (%s): %s vs %s"
+                          % (meta[i][1], why or "framing differs", h1[:60], h0[:60]),
+                          {"kind": "impl", "case": rlines[ridx.index(i)][:600], "fresh_encoder_hex": h0[:2000], "used_encoder_hex": h1[:2000],
+                           "cmd": "echo '%s' | harness/go/implrun" % rlines[ridx.index(i)][:600]})
+            bad_idx.add(i)
     bad2 = py2_loadable(p2)
     if bad2:
         for j, msg in list(bad2.items()):
@@ -199,7 +213,7 @@ def c12(res, rng, tier):
         "rule": "gate matrix (every documented Go type x size classes 0/1/255/256/257 x integer boundaries 2^7..2^64 +-1, zoo structs, pointers, nil pointers, unsupported kinds) + random value trees, x protocols -1..7 x StrictUnicode; each successful output scanned with CPython's pickletools (opcode -> introducing protocol, argument layout, stack effect; dis for stack discipline) and, for protocol <= 2, loaded by Python 2.7 cPickle; non-trivial = successful conformant outputs",
         "programs": len(lines), "disagreements_checked": len(lines), "value_kinds": kinds_hist(vals),
         "outputs_scanned_against_model_program": table_checked, "opcodes_seen_in_programs": insn_seen,
-        "python2_loaded": len(p2) if bad2 is not None else 0})
+        "python2_loaded": len(p2) if bad2 is not None else 0, "repeated_on_a_used_encoder": len(rlines)})
     res.samples = [{"case": lines[i][:160], "impl": impl[i][:160]} for i in range(0, len(lines), max(1, len(lines) // 6))]
 
 # =============================================================================================
